@@ -3,6 +3,7 @@ package main
 // Generic rule families shared by several properties.
 
 import (
+	"go/constant"
 	"fmt"
 	"go/token"
 	"go/types"
@@ -766,7 +767,10 @@ func (p *Prog) mustPass(from ssa.Instruction, rel func(ssa.Instruction) bool, pa
 		if p.noReturn(b) {
 			return
 		}
-		for _, s := range b.Succs {
+		for si, s := range b.Succs {
+			if deadEdge(b, si) {
+				continue
+			}
 			if !seen[s] {
 				seen[s] = true
 				walk(s, 0)
@@ -804,6 +808,9 @@ func (p *Prog) mustPassUnless(from ssa.Instruction, rel func(ssa.Instruction) bo
 		}
 		ifi, _ := b.Instrs[len(b.Instrs)-1].(*ssa.If)
 		for si, s := range b.Succs {
+			if deadEdge(b, si) {
+				continue
+			}
 			if ifi != nil && prune(ifi, si) {
 				continue
 			}
@@ -843,6 +850,9 @@ func (p *Prog) pathAvoiding(f *ssa.Function, from ssa.Instruction, target, rel f
 		}
 		ifi, _ := b.Instrs[len(b.Instrs)-1].(*ssa.If)
 		for si, s := range b.Succs {
+			if deadEdge(b, si) {
+				continue
+			}
 			if ifi != nil && prune != nil && prune(ifi, si) {
 				continue
 			}
@@ -1155,7 +1165,11 @@ func (p *Prog) canAvoid(s, b, d *ssa.BasicBlock) bool {
 		if len(x.Succs) == 0 || p.noReturn(x) {
 			return true
 		}
-		st = append(st, x.Succs...)
+		for si, sx := range x.Succs {
+			if !deadEdge(x, si) {
+				st = append(st, sx)
+			}
+		}
 	}
 	return false
 }
@@ -1323,6 +1337,16 @@ func ruleOptionalSubMsgNilChecked(c *Ctx, rule string, fnFilter func(*ssa.Functi
 			switch x := i.(type) {
 			case *ssa.FieldAddr:
 				base, fname = x.X, fieldName(x)
+			case *ssa.Call:
+				// a generated getter on an optional sub-message is the nil-safe way to read it: an instance, trivially safe
+				if recv, fld, ok := isPbGetter(&x.Call); ok {
+					switch tk := typeKey(deref(recv.Type())); tk {
+					case "pb.RequestHeader", "pb.ResponseStatus", "pb.Trailer", "pb.Body", "pb.Reset":
+						n++
+						c.trivial(rule, p.cname(f)+":"+strings.TrimPrefix(tk, "pb.")+".Get"+fld, true, "read through the nil-safe generated getter", p.ipos(i))
+					}
+				}
+				return
 			case *ssa.Field:
 				return
 			default:
@@ -1406,4 +1430,96 @@ func isParamRooted(v ssa.Value) bool {
 		}
 	}
 	return false
+}
+
+// ---- statically dead branch edges ----
+
+// constNil: the value is the nil constant on every path (a nil constant, or a φ of nil constants).
+func constNil(v ssa.Value, depth int) bool {
+	switch x := v.(type) {
+	case *ssa.Const:
+		return x.Value == nil && !isBasicNonNil(x)
+	case *ssa.Phi:
+		if depth > 3 {
+			return false
+		}
+		for _, e := range x.Edges {
+			if !constNil(e, depth+1) {
+				return false
+			}
+		}
+		return len(x.Edges) > 0
+	}
+	return false
+}
+
+func isBasicNonNil(c *ssa.Const) bool {
+	// a nil Value in ssa.Const also denotes the zero value of some non-nillable types
+	switch c.Type().Underlying().(type) {
+	case *types.Pointer, *types.Interface, *types.Slice, *types.Map, *types.Chan, *types.Signature:
+		return false
+	}
+	return true
+}
+
+// deadEdge: the edge pred → pred.Succs[si] can never be taken because the branch condition compares the nil
+// constant with itself (typical after a helper was spliced in: `err` is literally nil on the success path).
+func deadEdge(pred *ssa.BasicBlock, si int) bool {
+	if len(pred.Instrs) == 0 || len(pred.Succs) != 2 {
+		return false
+	}
+	ifi, ok := pred.Instrs[len(pred.Instrs)-1].(*ssa.If)
+	if !ok {
+		return false
+	}
+	if v, known := constBool(ifi.Cond, 0); known {
+		taken := 1
+		if v {
+			taken = 0
+		}
+		return si != taken
+	}
+	b, ok := ifi.Cond.(*ssa.BinOp)
+	if !ok || (b.Op != token.EQL && b.Op != token.NEQ) {
+		return false
+	}
+	if !constNil(b.X, 0) || !constNil(b.Y, 0) {
+		return false
+	}
+	taken := 0 // nil == nil → true branch
+	if b.Op == token.NEQ {
+		taken = 1
+	}
+	return si != taken
+}
+
+// constBool: the value is the same boolean constant on every path.
+func constBool(v ssa.Value, depth int) (val, known bool) {
+	switch x := v.(type) {
+	case *ssa.Const:
+		if x.Value != nil && x.Value.Kind() == constant.Bool {
+			return constant.BoolVal(x.Value), true
+		}
+	case *ssa.UnOp:
+		if x.Op == token.NOT {
+			if b, ok := constBool(x.X, depth+1); ok {
+				return !b, true
+			}
+		}
+	case *ssa.Phi:
+		if depth > 3 || len(x.Edges) == 0 {
+			return false, false
+		}
+		first, ok := constBool(x.Edges[0], depth+1)
+		if !ok {
+			return false, false
+		}
+		for _, e := range x.Edges[1:] {
+			if b, ok := constBool(e, depth+1); !ok || b != first {
+				return false, false
+			}
+		}
+		return first, true
+	}
+	return false, false
 }
